@@ -6,6 +6,7 @@ import (
 	"fmt"
 	"go/token"
 	"go/types"
+	"strings"
 
 	"golang.org/x/tools/go/ssa"
 )
@@ -29,6 +30,7 @@ type onceState struct {
 
 type poolState struct {
 	items []value
+	vcs   []vclock // release clock of each Put (a Get of that item acquires it)
 }
 
 func sideOf[T any](i *interpreter, key any, mk func() *T) *T {
@@ -235,6 +237,9 @@ func poolGet(fr *frame, a []value) value {
 	if n := len(st.items); n > 0 {
 		v := st.items[n-1]
 		st.items = st.items[:n-1]
+		cur := fr.i.sched.cur
+		cur.vc.join(st.vcs[n-1])
+		st.vcs = st.vcs[:n-1]
 		return v
 	}
 	// field New is the last field of sync.Pool
@@ -258,6 +263,9 @@ func poolPut(fr *frame, a []value) value {
 	st := sideOf(fr.i, p, func() *poolState { return &poolState{} })
 	if x := a[1].(iface); x.t != nil {
 		st.items = append(st.items, x)
+		cur := fr.i.sched.cur
+		st.vcs = append(st.vcs, cur.vc.copy())
+		cur.vc.tick(cur.id)
 	}
 	return nil
 }
@@ -639,5 +647,18 @@ func init() {
 			}
 		}
 		return true
+	}
+}
+
+func init() {
+	// (*errors.joinError).Error builds its result with unsafe.String
+	externals["(*errors.joinError).Error"] = func(fr *frame, a []value) value {
+		p := fr.nilCheck(a[0].(*value))
+		errs, _ := (*p).(structure)[0].([]value)
+		var parts []string
+		for _, e := range errs {
+			parts = append(parts, fr.errorString(e.(iface)))
+		}
+		return strings.Join(parts, "\n")
 	}
 }
